@@ -30,17 +30,6 @@ macro_rules! harnesses {
             $( $( (concat!(stringify!($f) $(, "_", stringify!($n))+ ), $f::<$($n),+> as fn()), )* )*
             $( $( #[cfg(feature = "deep")] (concat!(stringify!($g) $(, "_", stringify!($k))+ ), $g::<$($k),+> as fn()), )* )*
         ];
-        #[cfg(kani)]
-        mod kproofs {
-            $( $(
-                const _: () = {
-                    #[kani::proof]
-                    #[kani::unwind(8)]
-                    #[export_name = concat!("k_", stringify!($f) $(, "_", stringify!($n))+ )]
-                    fn k() { super::$f::<$($n),+>() }
-                };
-            )* )*
-        }
     };
 }
 
